@@ -120,6 +120,9 @@ both("Hwb<Rec2020>", "Rec2020"); both("Hsl<LinSrgb>", "LinSrgb"); both("Hsv<LinS
 both("Hsl", "Hsl<AdobeRgb>"); both("Hsv", "Hsv<AdobeRgb>"); both("Hsl", "Hsl<LinSrgb>"); both("Hsv", "Hsv<LinSrgb>"); both("Hsv", "Hsv<Rec709>"); both("Hwb", "Hwb<LinSrgb>"); both("Hwb", "Hwb<Rec2020>")
 both("Hsv<Rec709>", "Rec709"); both("Hsv<LinSrgb>", "Hsv<Rec709>")
 both("Hsl<AdobeRgb>", "Xyz"); both("Hsv<LinSrgb>", "Lab")
+# an XYZ hub for every cylindrical variant, so that each cross-standard Hsl/Hsv/Hwb pair has a step-by-step route to compare with
+for v in ["Hsv<AdobeRgb>", "Hwb<Rec2020>", "Hsl<LinSrgb>", "Hsv<LinSrgb>", "Hwb<LinSrgb>", "Hsv<Rec709>"]:
+    both(v, "Xyz")
 # other white points
 both("Xyz<D50>", "Lab<D50>"); both("Lab<D50>", "Lch<D50>"); both("Xyz<D50>", "Luv<D50>"); both("Xyz<D50>", "Yxy<D50>"); both("Lab<D50>", "ProPhoto"); both("Lch<D50>", "LinProPhoto")
 both("Luv<D50>", "Lchuv<D50>"); both("Lchuv<D50>", "Hsluv<D50>"); both("Hsluv<D50>", "Xyz<D50>")
